@@ -13,7 +13,8 @@ RULE = ("trees / single files as in C02 through both hybrid creators (TorrentAss
 
 
 def run_case(run, drv, files, pl, single, tag):
-    case = {"files": [(rel, b.token()) for rel, b in files], "pl": pl, "single": single,
+    case = {"links": cr.links(files),
+            "files": [(rel, b.token()) for rel, b in files], "pl": pl, "single": single,
             "gen": tag}
     with sandbox("c03") as box:
         root, name = cr.materialize(box, files, single)
@@ -46,18 +47,18 @@ def run(tier, seed, replay=None):
 
     def still_fails(c):
         probe = Run("C03", tier, seed, RULE)
-        files = [(rel, cr.blob_from_token(t)) for rel, t in c["files"]]
+        files = cr.files_of_case(c)
         run_case(probe, Driver(), files, c["pl"], c["single"], "shrink")
         return any(f.kind == "impl-vs-spec" for f in probe.failures)
     run.shrinker = still_fails
     if replay:
         c = replay["case"]
-        files = [(rel, cr.blob_from_token(t)) for rel, t in c["files"]]
+        files = cr.files_of_case(c)
         run_case(run, drv, files, c["pl"], c["single"], "replay")
     else:
         from harness.common import corpus_cases
         for c in corpus_cases("C03"):
-            files = [(rel, cr.blob_from_token(t)) for rel, t in c["files"]]
+            files = cr.files_of_case(c)
             run_case(run, drv, files, c["pl"], c["single"], "corpus")
         for _ in range(80 if tier == "quick" else 800):
             files, pl, single = cr.make_case(run.rng, tier, single_p=0.3)
